@@ -30,15 +30,18 @@ def rewrite_lines(
     found_patterns: typ.Set[Pattern] = set()
 
     new_lines = old_lines[:]
-    for match in parse.iter_matches(old_lines, patterns):
+    # NOTE: The spans refer to the old line. Matches on the same line are applied
+    #   right to left, so that earlier replacements are not lost.
+    matches = sorted(parse.iter_matches(old_lines, patterns), key=lambda m: (m.lineno, -m.span[0]))
+    for match in matches:
         found_patterns.add(match.pattern)
         normalized_pattern = v2patterns.normalize_pattern(
             match.pattern.version_pattern, match.pattern.raw_pattern
         )
         replacement = v2version.format_version(new_vinfo, normalized_pattern)
         span_l, span_r = match.span
-        new_line = match.line[:span_l] + replacement + match.line[span_r:]
-        new_lines[match.lineno] = new_line
+        cur_line = new_lines[match.lineno]
+        new_lines[match.lineno] = cur_line[:span_l] + replacement + cur_line[span_r:]
 
     if set(patterns) == found_patterns:
         return new_lines
